@@ -156,6 +156,8 @@ def leaves(node, env, out, op=None, opname=None):
                     ce = e2.child()
                     e2.roles.pop(s["pat"]["name"], None)
                     e2.inline[s["pat"]["name"]] = (s["init"], ce)
+                elif H.kind(s["pat"]) == "Slice" and s.get("init") is not None:
+                    S.bind_slice(s["pat"], s["init"], e2)
                 elif H.kind(s["pat"]) == "Tuple" and s.get("init") is not None:
                     t = S.norm(s["init"], e2)
                     if t and t[0] == "tup" and len(t) - 1 == len(s["pat"]["pats"]):
